@@ -189,8 +189,13 @@ func (g *G) Value(t cty.Type) cty.Value {
 		return cty.TupleVal(vs)
 	case t.IsObjectType():
 		m := map[string]cty.Value{}
-		for n, at := range t.AttributeTypes() {
-			m[n] = g.Value(at)
+		names := make([]string, 0)
+		for n := range t.AttributeTypes() {
+			names = append(names, n)
+		}
+		sort.Strings(names) // the PRNG must be consumed in a deterministic order
+		for _, n := range names {
+			m[n] = g.Value(t.AttributeType(n))
 		}
 		return cty.ObjectVal(m)
 	}
